@@ -2,6 +2,9 @@
 """Regenerates the seeded-changes table of DESIGN.md section 11.6 from seeded/*/meta.json."""
 import json, glob, os, re
 NOTES = {
+ 'C15-r6-v2-geterror-cache': 'Strengthened: every history is run again with seeded queries (and report constructions) injected before each state-changing operation, also on the receiver before its first Decode; decode outcomes, snapshots and the closing battery must equal those of the plain run (InjectVerdict).',
+ 'C16-r6-shared-base-template': 'Strengthened: the stress mix exports templates that define a nested template of the same name with different bodies.',
+ 'C12-r6-decode-checks-base-only': 'Strengthened: an object returned without an error must be valid (also by a Decode into a used receiver); MC_Objects got inputs that leave an invalid optional metric behind and inputs that do not overwrite it.',
  'C17-r5-env-score-copied-from-temporal': 'Strengthened: base-only (and base+temporal) vectors are now also rendered as temporal / environmental reports.',
  'C18-r5-negative-cache-parent-index': 'Strengthened: display names are read once before and once after all the other language tags were used (first_title / first_vals) and the regional tag list was widened.',
  'C09-isempty-shortcut-x-vs-omitted': 'Strengthened: first run missed it; C03 now decodes every (version, base) with no / all / some optional metrics spelled X, C09 pairs every base vector omitted-vs-spelled.',
